@@ -230,7 +230,15 @@ index_decoder_memconfig(void *coder_ptr, uint64_t *memusage,
 {
 	lzma_index_coder *coder = coder_ptr;
 
-	*memusage = lzma_index_memusage(1, coder->count);
+	// coder->count is the number of Records that are still to be decoded.
+	// The Records decoded so far are already in coder->index, and
+	// the memory for all of them was allocated when the first one
+	// was added.
+	lzma_vli count = coder->count;
+	if (coder->index != NULL)
+		count += lzma_index_block_count(coder->index);
+
+	*memusage = lzma_index_memusage(1, count);
 	*old_memlimit = coder->memlimit;
 
 	if (new_memlimit != 0) {
